@@ -40,6 +40,11 @@ func aesGCMDecrypt(key, cipherText, nonce []byte) ([]byte, error) {
 		return nil, err
 	}
 
+	// cipher.AEAD.Open panics on a nonce of the wrong size
+	if len(nonce) != stream.NonceSize() {
+		return nil, errors.New("invalid nonce length")
+	}
+
 	outText, err := stream.Open(nil, nonce, cipherText, []byte(gcmAdditionData))
 	if err != nil {
 		return nil, err
